@@ -767,7 +767,7 @@ inductive ChoiceOp
   | getComponent
   | getChosenName
   | pretty
-  | eqTo (v : Int)                -- c == <fresh CHOICE holding v in some alternative>
+  | eqTo (k : Nat) (v : Int)      -- c == <fresh CHOICE holding v in alternative k>
   | encode
 deriving DecidableEq, Repr, Inhabited
 
@@ -869,14 +869,19 @@ def step (n : Nat) (st : ChoiceSt) : ChoiceOp → ChoiceSt × Out
     (match st.comps with
      | none => (st, .libErr)
      | some l => (st, .items ((enumFrom 0 l).filter (fun kv => kv.2.isVal))))
-  | .eqTo v =>
+  | .eqTo k' v =>
     (match st.comps with
      | none => (st, .libErr)                    -- `if self._componentValues:` on noValue
      | some [] => (st, .bool false)             -- NotImplemented, then identity
      | some _ =>
-       match chosen st with
-       | some (.val z) => (st, .bool (z = v))
-       | _ => (st, .libErr))
+       -- same alternative selected and equal values (`getName() == other.getName() and …`)
+       match st.cur, chosen st with
+       | some k, some c =>
+         if k ≠ k' then (st, .bool false)
+         else (match c with
+           | .val z => (st, .bool (z = v))
+           | _ => (st, .libErr))
+       | _, _ => (st, .libErr))
   | .encode => (st, .unit)
 
 def abs (st : ChoiceSt) : Option Val :=
@@ -1529,12 +1534,16 @@ def step (n : Nat) (s : St) : ChoiceOp → St × Out
     else (match s.sel with
       | some (k, some z) => (s, .items [(k, .val z)])
       | _ => (s, .items []))
-  | .eqTo v =>
+  | .eqTo k' v =>
     if !s.isObj then (s, .libErr)
     else if !s.alloc then (s, .bool false)
     else (match s.sel with
-      | some (_, some z) => (s, .bool (z = v))
-      | _ => (s, .libErr))
+      | some (k, x) =>
+        if k ≠ k' then (s, .bool false)
+        else (match x with
+          | some z => (s, .bool (z = v))
+          | none => (s, .libErr))
+      | none => (s, .libErr))
   | .encode => (s, .unit)
 
 def isValue (s : St) : Bool :=
@@ -1735,7 +1744,7 @@ def choiceOpOf : Sexp → Option ChoiceOp
   | .list [.atom "getcomponent"] => some .getComponent
   | .list [.atom "getchosenname"] => some .getChosenName
   | .list [.atom "pretty"] => some .pretty
-  | .list [.atom "eq", v] => do pure (.eqTo (← intOf v))
+  | .list [.atom "eq", k, v] => do pure (.eqTo (← natOf k) (← intOf v))
   | .list [.atom "encode"] => some .encode
   | _ => none
 
